@@ -102,6 +102,15 @@ def cases(tier, seed, focus=None):
         for spec in (EXH_AGGS if tier == "thorough" else [EXH_AGGS[(code + m + n) % 4]]):
             out.append({"agg": spec, "mat": {"kind": "ternary", "m": m, "n": n, "seed": 0, "code": code,
                                              "dtype": "float64" if (code + m) % 3 else "float32", "scale": 1.0}})
+    # ---- reg_eps = 0: the QP solver may REJECT a singular problem (an exception: no aggregation is returned, fine); whatever IS
+    # returned must still not oppose any objective (allowance 0 + rounding) - a swallowed rejection shows up here
+    rng_z = random.Random(40800 + seed)
+    zt = [(m, n, code) for m in (2, 3) for n in (1, 2, 3) for code in range(3 ** (m * n))]
+    for (m, n, code) in rng_z.sample(zt, 120 if tier == "quick" else 2000):
+        spec = {"name": rng_z.choice(["UPGrad", "DualProj"]), "norm_eps": 1e-4, "reg_eps": 0.0}
+        if rng_z.random() < 0.4:
+            spec["pref"] = "distinct"
+        out.append({"agg": spec, "mat": {"kind": "ternary", "m": m, "n": n, "seed": 0, "code": code, "dtype": "float64", "scale": 1.0}})
     # ---- random part
     n_rand = 500 if tier == "quick" else 16000
     n_wide = 300 if tier == "quick" else 8000
@@ -164,6 +173,8 @@ def run_case(case):
         x = to64(agg(J))
         w = to64(agg.weighting(J))
     except Exception as ex:
+        if spec.get("reg_eps", 1.0) == 0.0:
+            return {"ok": True, "sig": sig, "nontrivial": False, "note": f"unregularised problem rejected ({type(ex).__name__})"}
         return fail(key, f"{name} raised {type(ex).__name__}: {str(ex)[:150]}", sig, conflict, "exception",
                     "a vector", matrix=small(J))
     Jx = J64 @ x
@@ -178,6 +189,8 @@ def run_case(case):
     if name in ("UPGrad", "DualProj"):
         reg = spec.get("reg_eps", 1e-4)
         allow = reg * s * s * np.maximum(w, 0.0) + s * s * dG * w1 + rnd
+        if reg == 0.0:
+            allow = allow + 1e-7 * s * s * max(w1, 1.0)   # accuracy of the QP solver itself [T] (hidden by reg_eps otherwise)
     elif name == "CAGrad":
         c = spec["c"]
         lam = max(float(w.sum()) - 1.0, 0.0)
